@@ -79,7 +79,7 @@ func init() {
 		B := newAcct("B", []byte("sb-B"))
 		idents, _ := mkIdents()
 		doc, _ := genDoc(rand.New(rand.NewSource(3)), idents[0].did, idents[0])
-		strs := []string{"", "t", "topic-1"}
+		strs := []string{"", "t", "topic-1", "caf\u00e9", "caf\\u00e9", "a\"b", "x<y>&z", "tab\there\nnl", "日本語", "back\\slash", "\u2028sep"}
 		opt := func() string { return strs[rng.Intn(len(strs))] }
 		gen := func() sdk.Msg {
 			o, w := A.Bech(), []string{A.Bech(), B.Bech()}[rng.Intn(2)]
